@@ -1,10 +1,10 @@
 HARNESSES = {
-    'VerbStep': dict(split={'verb': 16, 'smooth': 3}, quick=dict(params={'K': 1}), thorough=dict(params={'K': 2}, split={'verb': 16, 'smooth': 3, 'verb#1': 16})),
+    'VerbStep': dict(split={'verb': 16, 'smooth': 3}, quick=dict(params={'K': 1}), thorough=dict(params={'K': 3}, split={'verb': 16, 'smooth': 3, 'verb#1': 16, 'verb#2': 16})),
     'StartAndEnd': dict(split={'smooth': 3}),
 }
 
 BOUNDS = {
-    'VerbStep': 'K consecutive verbs (quick 1, thorough 2) out of the 16 non-arc verbs and the two close-and-move operations, from an arbitrary state: symbolic viewBox, rectangle size 1..65536 and origin within +-2^23, pen, sub-path start, smooth-curve memory; all operands arbitrary float32',
+    'VerbStep': 'K consecutive verbs (quick 1, thorough 3) out of the 16 non-arc verbs and the two close-and-move operations, from an arbitrary state: symbolic viewBox, rectangle size 1..65536 and origin within +-2^23, pen, sub-path start, smooth-curve memory; all operands arbitrary float32',
     'StartAndEnd': 'StartPath and ClosePathEndPath from the same arbitrary state',
 }
 OUTSIDE = 'arcs (C06); sequences longer than K as a whole (the state after one step is again an arbitrary state of the same form, so the step result composes)'
